@@ -14,13 +14,13 @@ CHECKS = {
          "Exploration by seeded simulation of concurrent operations from several handle clones against a conformant scripted broker, with random acknowledgement order/delay, chunked reads, partial writes and three select! policies; each run is re-executed from its recorded scenario and judged over the history. Right level because the property quantifies over interleavings that only a controlled executor can sample."),
  "C06": ("exploration", "3.C06", "seeded deterministic simulation: publish-only conformant profile with every PUBACK/PUBREC/PUBCOMP reason code; wire-trace + result oracle",
          "Exploration: QoS 0/1/2 publishes with all legal reason codes, delayed polling of the QoS 2 future between its phases; oracle reads the wire through the reference decoder (DUP, fields, PUBREL causality/count) and the publish() results."),
- "C07": ("exploration", "3.C07", "seeded deterministic simulation: inbound profile; per-stream expected item list vs items yielded",
-         "Exploration: interleavings of subscribe, SUBACK, server PUBLISH (registered / unknown / absent / multiple identifiers), stream open/drop, unsubscribe; oracle compares every stream's yielded items with the injected PUBLISH packets carrying its identifier, accessor by accessor."),
+ "C07": ("exploration", "3.C07", "seeded deterministic simulation: inbound profile (bursts next to powers of two, small server Receive Maximum), per-stream expected item list vs items yielded; plus concurrent subscribe() calls from caller threads under the shuttle controlled scheduler (random + PCT), one message per subscription identifier",
+         "Exploration: interleavings of subscribe, SUBACK, server PUBLISH (registered / unknown / absent / multiple identifiers), stream open/drop, unsubscribe; oracle compares every stream's yielded items with the injected PUBLISH packets carrying its identifier, accessor by accessor. Threads part: 2-3 shuttle threads x 1-3 subscribe() calls, scheduling points before and after every access to the shared identifier counters (so allocation order and queueing order can differ), then every call must receive exactly the messages carrying its own identifier."),
  "C08": ("exploration", "3.C08", "seeded deterministic simulation: inbound profile with writer back-pressure; acknowledgement sequence on the wire vs arrival sequence",
          "Exploration: inbound QoS 0/1/2 PUBLISH and PUBREL mixes interleaved with client operations; oracle matches the PUBACK/PUBREC/PUBCOMP sequence on the wire one-to-one and in order against the injected packets."),
  "C09": ("exploration", "3.C09", "seeded deterministic simulation: QoS 2 re-delivery histories checked against a set model (received-not-released)",
          "Exploration of histories over {PUBLISH(QoS2,id,DUP), PUBREL(id)} with re-deliveries and identifier reuse; reference model = set of unreleased identifiers; oracle = stream items equal the model's distinct messages and every re-delivery is still answered with PUBREC."),
- "C10": ("exploration", "3.C10", "seeded deterministic simulation: Receive Maximum histories + quiescent probe (free+1 publishes) against a wire-level counter model",
+ "C10": ("exploration", "3.C10", "seeded deterministic simulation: Receive Maximum histories (also with a Maximum Packet Size, identifier jumps, and across a lost connection and a resumed or expired session) + quiescent probe (free+1 publishes) against a wire-level slot model keyed by packet identifier",
          "Exploration: R in {1..12, absent}, bursts, every failing completion kind, then at quiescence exactly `free` publishes must be accepted and one refused; plus a broker-view safety counter and a serial-order-impossibility test for QuotaExceeded."),
  "C01": ("exploration", "3.C01", "deterministic simulation end to end + seeded option-space generation; wire bytes decoded by the independent strict reference codec and compared field by field with the caller's options; partial / pending writes from the simulated transport",
          "Exploration: random subsets of every option of Connect/Auth/Publish/Subscribe/Subscription/Unsubscribe/Disconnect options with boundary values (0,1,127,128,16383,16384,65535-byte strings, multi-byte UTF-8, integer extremes, 0..n user properties, 1..n filters, payloads across the 1/2/3(/4 in thorough)-byte remaining-length boundaries), requests with a mandatory part missing, issued through the public API of a running client from several handles while the simulated AsyncWrite accepts 1..n bytes per call or blocks. The simulator's share is the end-to-end path and the write-fragmentation dimension; the option space is decided by seeded generation against the independent codec (said plainly in DESIGN.md)."),
@@ -62,7 +62,7 @@ def entry(pid, v):
 
 def fixups(m):
     for c in m["checks"]:
-        if c["property_id"] == "C11":
+        if c["property_id"] in ("C11", "C07"):
             c["replay_cmd_template"] = "/verif/sim/target/release/posim replay {path}   (for *.schedule files: /verif/threads/target/release/posim-threads replay {path})"
     return m
 
@@ -77,8 +77,8 @@ manifest = {
         "add_only": False,
     },
     "engines": [
-        {"name": "posim-threads", "path": "/verif/threads", "serves_properties": ["C11"],
-         "kind_free_text": "shuttle 0.9.3 controlled thread scheduler (random and PCT) driving caller threads at the identifier allocation; the context and wire are then served and judged inside posim"},
+        {"name": "posim-threads", "path": "/verif/threads", "serves_properties": ["C07", "C11"],
+         "kind_free_text": "shuttle 0.9.3 controlled thread scheduler (random and PCT) driving caller threads at the identifier allocation / request submission; the context, broker and wire are then served and judged inside posim"},
         {"name": "posim", "path": "/verif/sim", "serves_properties": sorted(CHECKS.keys()),
          "kind_free_text": "deterministic discrete-event simulator (own executor, AsyncRead/AsyncWrite transports, scripted MQTT 5 broker with independent codec, simulated clock, hooked select! arbiter) with seeded fault injection, ddmin minimiser and replay files"},
     ],
